@@ -87,6 +87,35 @@ for h, t in [("enc_flate_p12_c1_b8_w2", "quick"), ("enc_flate_p15_c1_b8_w3", "qu
        bound="one concrete (predictor, colors, bits, columns) tuple = %s; 2-3 rows; all row tags 0..4 and all pixel bytes; "
              "data is a raw-deflate stored block" % h[10:])
 
+# ---------------------------------------------------------------------------------------------------------------------
+# xref.rs / parse_xref.rs: C02 (+ C01/C14 arithmetic)
+# ---------------------------------------------------------------------------------------------------------------------
+XREF_FN = ["xref::XRefTable::add_entries_from", "xref::XRefSection::entries", "xref::XRef::get_gen_nr", "xref::XRefTable::get",
+           "xref::XRefTable::new"]
+ob("xref_history_1id_3sections", ["C02"], "xref.rs", unwind=5, cuts=X1_ERR, stubs=[FMT_STUB], functions=XREF_FN,
+   bound="1 object number, 3 sections newest->oldest, each present or absent, every entry kind with symbolic fields; "
+         "generations non-decreasing over time")
+ob("xref_history_2ids", ["C02"], "xref.rs", unwind=5, cuts=X1_ERR, stubs=[FMT_STUB], functions=XREF_FN,
+   bound="2 object numbers, newer section of 1-2 entries, older section of 1 entry starting at id 0..3")
+ob("xref_merge_step", ["C02"], "xref.rs", unwind=4, cuts=X1_ERR, stubs=[FMT_STUB], functions=XREF_FN + ["xref::XRefTable::set"],
+   bound="inductive step from an arbitrary merged entry (incl. Invalid) and one arbitrary older entry")
+for sz in (0, 2):
+    ob("xref_table_new_get_s%d" % sz, ["C02", "C01"], "xref.rs", unwind=6, cuts=X1_ERR, stubs=[FMT_STUB],
+       functions=["xref::XRefTable::new", "xref::XRefTable::get"], bound="/Size %d, every u64 object number" % sz)
+ob("xref_byte_len", ["C02", "C14"], "xref.rs", functions=["xref::byte_len"], bound="all u64")
+PX = ["parser::parse_xref::parse_xref_section_from_stream", "parser::parse_xref::read_u64_from_stream"]
+ob("pxref_read_u64", ["C02", "C01", "C14"], "parse_xref.rs", unwind=11, cuts=X1_ERR, stubs=[FMT_STUB], functions=PX[1:],
+   bound="all buffers <= 9 bytes, every usize width")
+for h in ("pxref_section_w111_n2", "pxref_section_w121_n2", "pxref_section_w022_n2", "pxref_section_w120_n1"):
+    ob(h, ["C02"], "parse_xref.rs", unwind=5, cuts=X1_ERR, stubs=[FMT_STUB], functions=PX, timeout=900,
+       bound="one subsection, widths/count = %s, all data bytes, symbolic first id" % h[14:])
+ob("pxref_section_sizes_total", ["C01", "C14"], "parse_xref.rs", unwind=7, cuts=X1_ERR, stubs=[FMT_STUB], functions=PX,
+   timeout=900, bound="every entry count and width triple representable as 32-bit PDF integers (sum > 0), 4 data bytes, "
+                      "strict and tolerant: no panic")
+ob("pxref_section_zero_width", ["C14"], "parse_xref.rs", unwind=5, cuts=X1_ERR, stubs=[FMT_STUB], functions=PX,
+   timeout=900, unwind_is_violation=True,
+   bound="widths [0,0,0], every count < 2^31: the entry loop must stay bounded by the data")
+
 
 def select(prop, tier, seed=0):
     tiers = ("quick",) if tier == "quick" else ("quick", "thorough")
